@@ -50,6 +50,10 @@ func monotoneReplicas(reps [][]smp) bool {
 }
 
 func execC02(c *hlib.Ctx, tok []string) string {
+	return guarded(c, func() string { return execC02Body(c, tok) })
+}
+
+func execC02Body(c *hlib.Ctx, tok []string) string {
 	if len(tok) != 4 {
 		return "bad-op"
 	}
@@ -205,7 +209,7 @@ func execC02Frac(c *hlib.Ctx, tok []string) string {
 
 func genC02(c *hlib.Ctx) {
 	r := c.R
-	n := c.N(6000, 400000)
+	n := budget(c, 6000, 60000)
 	for i := 0; i < n; i++ {
 		l := genLayout(c, true)
 		c.Count(fmt.Sprintf("replicas:%d", len(l.reps)))
@@ -235,7 +239,7 @@ func genC02(c *hlib.Ctx) {
 		}
 	}
 	// fractional stream (oracle only)
-	for i := 0; i < c.N(1500, 100000); i++ {
+	for i := 0; i < budget(c, 1500, 20000); i++ {
 		l := genLayout(c, true)
 		var reps []string
 		for _, rep := range l.reps {
